@@ -6,7 +6,7 @@ import sys
 import numpy as np
 
 from ..common import Ctx, b2f, close, driver_batch, f2b, fvec
-from . import c03_ext, c03_r3, c03_r4
+from . import c03_ext, c03_r3, c03_r4, c03_r5
 
 LEVEL = "proof"
 LEVEL_TEXT = (
@@ -132,7 +132,11 @@ RULE = (
     "argument shapes (1,), (2,), (1,2), (2,1), (1,3), (3,2), (2,1,3), (1,1), a transposed view, and such a shape as the first grid of a b=None "
     "object; oracle-only parts (reference-free): parameters of kind np.float64 / np.float32 / np.int64 / np.int32 / int, integer-valued and not, "
     "trim_inf as bool / np.bool_ / int, b taken from int / bool / float32 / read-only / strided / negative-stride / Fortran / 0-d grids, every "
-    "spelling of constructor and method call, one view of a larger array for every method in turn, calls that raise followed by every method"
+    "spelling of constructor and method call, one view of a larger array for every method in turn, calls that raise followed by every method; "
+    "round 5 (c03_r5.py, oracle only): arguments of 1025 .. 65537 points (thorough: 2^19+1, 1000003) against the split argument, descending / "
+    "shuffled arguments, longdouble / float16 / float32 / int8..int64 / uint8 arrays given directly (argument unchanged, second call equal), "
+    "b given or fixed by a first grid on grids far beyond b against the closed form, the same array object edited in place between two "
+    "calls, two instances differing in one thing used alternately in either order"
 )
 TRUSTED_BASE = [
     "Lean 4.33 kernel; Mathlib; axioms propext, Classical.choice, Quot.sound only (audited per theorem)",
@@ -843,7 +847,8 @@ def oracle(ctx: Ctx, budget: str):
         lambda: _oracle_round2(ctx, mod, budget),
         lambda: c03_ext.oracle_ext(ctx, budget, CLASSES, gen_params, construct, end_points),
         lambda: c03_r3.oracle_r3(ctx, budget, sys.modules[__name__]),
-        lambda: c03_r4.oracle_r4(ctx, budget, sys.modules[__name__])])
+        lambda: c03_r4.oracle_r4(ctx, budget, sys.modules[__name__]),
+        lambda: c03_r5.oracle_r5(ctx, budget, sys.modules[__name__])])
 
 
 def _oracle_end_points(ctx, cls, ps, trim, Tf, T):
